@@ -68,6 +68,51 @@ def expected_header(typ, api_key, version, flexible):
     return f"kio.schema.response_header.v{v}.header", "ResponseHeader", v
 
 
+
+def pairing_pass(acc, index, mods, payloads, order_name):
+    """request <-> response lookups for every payload class.  order_name 'class-first': look up with the class,
+    then with an instance; 'instance-first': the other way round (a lookup must not depend on what was looked up
+    before, nor on whether a class or an instance was passed first)."""
+    from .. import bridge, values
+
+    for api, ver, typ, mod, top in payloads:
+        other_typ = "response" if typ == "request" else "request"
+        other = mods.get((api, ver, other_typ))
+        case = {"class": f"{top.__module__}:{top.__qualname__}", "order": order_name}
+        if other is None:
+            acc.report(violation("C08", "pairing", "C08/no-counterpart", case["class"], case, f"a {other_typ} for {api} v{ver}", "none", (api, ver)))
+            continue
+        otop = top_level(other[0], other_typ)[0]
+        acc.add("evaluations")
+        if (top.__api_key__, top.__flexible__) != (otop.__api_key__, otop.__flexible__):
+            acc.report(violation("C08", "pairing", "C08/request-response-disagree", case["class"], case,
+                                 f"{otop.__api_key__}/{otop.__flexible__}", f"{top.__api_key__}/{top.__flexible__}", (api, ver)))
+        fwd, back = ((index.load_response_from_request, index.load_request_from_response) if typ == "request"
+                     else (index.load_request_from_response, index.load_response_from_request))
+        try:
+            inst = bridge.to_entity(wire_schema(top), values.base_value(values.build(wire_schema(top), "value", 16)))
+        except bridge.OutOfDomain:
+            inst = None
+        try:
+            if order_name == "instance-first" and inst is not None:
+                inst_there = fwd(inst)
+                there = fwd(top)
+            else:
+                there = fwd(top)
+                inst_there = fwd(inst) if inst is not None else otop
+            again = back(there)
+            again2 = back(inst_there)
+        except Exception as e:  # noqa: BLE001
+            acc.report(violation("C08", "pairing", f"C08/pairing-lookup-raised/{exc_name(e)}", case["class"], case,
+                                 "lookup succeeds", repr(e)[:300], (api, ver)))
+            continue
+        if there is not otop or inst_there is not otop or again is not top or again2 is not top:
+            acc.report(violation("C08", "pairing", "C08/pairing-not-mutually-inverse", case["class"], case,
+                                 f"{otop!r} and back to {top!r}", f"{there!r}, via instance {inst_there!r}, back {again!r} / {again2!r}"[:600], (api, ver)))
+        else:
+            acc.outcome(f"pairing inverse (class and instance, {order_name})")
+
+
 def run_c08(tier):
     from kio import index
 
@@ -77,6 +122,7 @@ def run_c08(tier):
     mods = modules_by_key()
     n_payload = 0
     n_classes_checked = 0
+    payloads = []
     for (api, ver, typ), (mod, classes) in sorted(mods.items()):
         if typ not in ("request", "response"):
             continue
@@ -116,51 +162,25 @@ def run_c08(tier):
                                      f"api_key={cls.__dict__.get('__api_key__')} flexible={cls.__dict__.get('__flexible__')}", (api, ver, cls.__name__)))
                 continue
             acc.outcome(f"{typ} header v{hver}")
-        # pairing
-        other_typ = "response" if typ == "request" else "request"
-        other = mods.get((api, ver, other_typ))
-        case = {"class": f"{top.__module__}:{top.__qualname__}"}
-        if other is None:
-            acc.report(violation("C08", "pairing", "C08/no-counterpart", case["class"], case, f"a {other_typ} for {api} v{ver}", "none", (api, ver)))
-            continue
-        otop = top_level(other[0], other_typ)[0]
-        acc.add("evaluations")
-        if (top.__api_key__, top.__flexible__) != (otop.__api_key__, otop.__flexible__):
-            acc.report(violation("C08", "pairing", "C08/request-response-disagree", case["class"], case,
-                                 f"{otop.__api_key__}/{otop.__flexible__}", f"{top.__api_key__}/{top.__flexible__}", (api, ver)))
-        fwd, back = ((index.load_response_from_request, index.load_request_from_response) if typ == "request"
-                     else (index.load_request_from_response, index.load_response_from_request))
-        try:
-            there = fwd(top)
-            again = back(there)
-            inst_there = None
-            try:
-                from .. import bridge, values
-
-                inst = bridge.to_entity(wire_schema(top), values.base_value(values.build(wire_schema(top), "value", 16)))
-                inst_there = fwd(inst)
-            except bridge.OutOfDomain:
-                inst = None
-        except Exception as e:  # noqa: BLE001
-            acc.report(violation("C08", "pairing", f"C08/pairing-lookup-raised/{exc_name(e)}", case["class"], case,
-                                 "lookup succeeds", repr(e)[:300], (api, ver)))
-            continue
-        if there is not otop or again is not top or (inst is not None and inst_there is not otop):
-            acc.report(violation("C08", "pairing", "C08/pairing-not-mutually-inverse", case["class"], case,
-                                 f"{otop!r} and back to {top!r}", f"{there!r}, {again!r}, via instance {inst_there!r}", (api, ver)))
-        else:
-            acc.outcome("pairing inverse (class and instance)")
+        payloads.append((api, ver, typ, mod, top))
         if len(acc.samples) < 6 and ver == pin["max"]:
             acc.sample({"class": case["class"], "expected_header": f"{hmod}:{hname}", "flexible": flexible})
+    import importlib
+
+    for order_name in ("class-first", "instance-first"):
+        importlib.reload(index)  # a fresh module: nothing looked up before
+        pairing_pass(acc, index, mods, payloads, order_name)
+    importlib.reload(index)
     run.merge(acc.result())
     c = run.cov
     c["payload_classes"] = n_payload
-    c["distinct_nontrivial"] = n_classes_checked + n_payload  # distinct classes whose header was judged + distinct pairings
+    c["distinct_nontrivial"] = n_classes_checked + 2 * n_payload  # distinct classes whose header was judged + distinct (pairing, order)
     c["rule"] = ("every request and response module on disk: the top-level payload class and every class reachable "
                  "from it through field types; expected header from the independently restated Kafka rule applied to "
                  "the pinned API table (key, version range, first flexible version), not to the class's own constants; "
                  "request/response agreement; load_response_from_request / load_request_from_response mutually inverse "
-                 "on classes and on instances. Each (class, check) is one evaluation")
+                 "on classes and on instances, in two passes on a freshly reloaded kio.index: class looked up first, then instance, and "
+                 "instance first, then class. Each (class, check) is one evaluation")
     c["exhaustive"] = True
     run.assumptions += ["pins/kafka-3.9.0-apis.json (derived from the baseline tree, spot-checked against the 3.9.0 protocol tables)"]
     if n_payload < 600:
